@@ -14,9 +14,10 @@ from .universe import flodym, Dimension, DimensionSet, FlodymArray
 
 BLANK = -999999
 DIMOBJ = {
-    "a": Dimension(name="dim_a", letter="a", items=["a1", "a2", "a3"], dtype=str),
-    "b": Dimension(name="dim_b", letter="b", items=[2000, 2010], dtype=int),
-    "c": Dimension(name="dim_c", letter="c", items=[1, 2]),
+    # item order deliberately NOT sorted: pandas sorts labels in pivots / MultiIndex levels
+    "a": Dimension(name="dim_a", letter="a", items=["a3", "a1", "a2"], dtype=str),
+    "b": Dimension(name="dim_b", letter="b", items=[2010, 2000], dtype=int),
+    "c": Dimension(name="dim_c", letter="c", items=[2, 1]),
     "d": Dimension(name="dim_d", letter="d", items=["d1"], dtype=str),
 }
 CANON = ["a", "b", "c", "d"]
@@ -153,13 +154,16 @@ def run_import(vec):
                 if target is not None and not np.all(target.values == -5.0):
                     problems.append(tag + "{C12} the target array was changed although the import was refused")
                 continue
+            # accepting a faulty table / placing entries that do not come from the unique row with their labels also
+            # violates C11 ("whenever from_df returns at all, every entry it sets comes from the unique row ...")
+            tag1 = tag0 if not vec["faults"] else "{C12,C11}"
             if outcome == "error":
-                problems.append(tag + tag0 + " accepted a table that must be refused")
+                problems.append(tag + tag1 + " accepted a table that must be refused")
                 continue
             if got.shape != want.shape or not np.allclose(got, want, rtol=0, atol=1e-12, equal_nan=False):
                 bad = [(idx, got[idx], want[idx]) for idx in np.ndindex(*want.shape) if not (got.shape == want.shape and abs(got[idx] - want[idx]) <= 1e-12)][:3] \
                     if got.shape == want.shape else got.shape
-                problems.append(tag + tag0 + f" entries differ from the rows carrying their labels: (index, got, want) {bad}")
+                problems.append(tag + tag1 + f" entries differ from the rows carrying their labels: (index, got, want) {bad}")
     if tmp:
         shutil.rmtree(tmp, ignore_errors=True)
     return problems[:6]
